@@ -107,7 +107,19 @@ func runExifProps(c *Ctx, which string) error {
 	for i := 0; i < n; i++ {
 		r := genRecord(c)
 		lo := layoutOpt{shuffleEntries: c.Rng.Intn(2) == 0, foreign: c.Rng.Intn(4), pad: []int{0, 0, 1, 7, 40}[c.Rng.Intn(5)], headerPad: []int{0, 0, 0, 2, 18}[c.Rng.Intn(5)],
-			valuesFirst: c.Rng.Intn(2) == 0, entryOrderVals: c.Rng.Intn(2) == 0, ifd1: c.Rng.Intn(3) == 0}
+			valuesFirst: c.Rng.Intn(2) == 0, entryOrderVals: c.Rng.Intn(2) == 0, ifd1: c.Rng.Intn(3) == 0,
+			slotJunk: c.Rng.Intn(3) == 0, isoPair: c.Rng.Intn(3) == 0}
+		if c.Rng.Intn(10) == 0 {
+			// many tags: more than 84 in the file, never more than about 55 pending (each directory's values before its sub-directories)
+			lo.foreign, lo.valuesFirst, lo.entryOrderVals = 45, true, true
+			c.Stat("layout.many-tags")
+		}
+		if lo.slotJunk {
+			c.Stat("layout.slot-junk")
+		}
+		if lo.isoPair && r.hasIso {
+			c.Stat("layout.iso-short-x2")
+		}
 		// the same random choices for both byte orders: re-seed the layout decisions
 		st := c.Rng.Int63()
 		sub := *c
